@@ -148,8 +148,8 @@ def gradient_factory(name):
             """Return the gradient operator."""
             return sinh(self.domain)
     else:
-        # Fallback to default
-        gradient = Functional.gradient
+        # Fallback to default, `Functional.gradient` is a property
+        gradient = Functional.gradient.fget
 
     return gradient
 
